@@ -28,7 +28,8 @@ META = {
     ],
     "shard_timeout": {"quick": 900, "thorough": 3600},
 }
-RETURNS = ["none", "zero", "false", "emptystr", "emptylist", "str", "object", "dict", "biglist", "exception_instance", "one"]
+RETURNS = ["none", "zero", "false", "emptystr", "emptylist", "str", "object", "dict", "biglist", "exception_instance", "one",
+           "awaitable", "awaitable", "generator", "function", "type"]  # also values that could be mistaken for work still to do
 RAISES = ["LookupError", "KeyError", "ValueError", "CustomWithArgs", "RuntimeError", "OSError", "AssertionError", "StopAsyncIteration",
           "TimeoutError", "InvalidStateError", "FuturesCancelledError", "ExceptionGroup"]
 BRIDGE_KINDS = {"TimeoutError", "InvalidStateError", "FuturesCancelledError", "CancelledError"}
@@ -201,6 +202,8 @@ def judge(case, run, result):
                 problems.append(("execute(%s, flavour=%s): caller received %s, not the very object the payload returned (%s)" % (pid, sp["flavour"], out["repr"], what), None))
             else:
                 result.count("results_returned_by_identity")
+                if what == "awaitable":
+                    result.count("awaitable_results_returned_as_they_are_%s" % sp["flavour"])
         else:
             if out["kind"] != "raised":
                 problems.append(("execute(%s, flavour=%s): payload raised %s but the caller got a return value" % (pid, sp["flavour"], what), None))
@@ -260,6 +263,7 @@ def finish(total, tier):
     need = ["executes_judged", "results_returned_by_identity", "exceptions_raised_by_identity", "runtimes_alive_after_executes",
             "executes_asyncio_from_outside", "executes_trio_from_outside", "executes_threading_from_outside",
             "executes_asyncio_from_tcaller", "executes_trio_from_tcaller", "executes_trio_from_ccaller", "executes_asyncio_from_ccaller"]
+    need += ["awaitable_results_returned_as_they_are_%s" % f for f in common.FLAVOURS]
     need += ["executes_of_callable_kind_%s" % k for k in ("function", "lambda", "wrapped", "partial", "object", "method")]
     for name in need:
         if not total.counters.get(name) and not total.violations:
